@@ -213,5 +213,22 @@ let check (op : string) (ty : string) (a : string array) (expected : string) : b
   | "x.is_one" -> let x = p_esop a.(0) in
      if int_of_nat x.env > 12 then None else
      Some ((not (p_bool expected)) || List.for_all (fun m -> sem_xor x.ecubes m) (dom x.env))
+  (* ---- C10: conversions, from the property text: LutN -> Lut keeps size and table; Lut -> LutN fails exactly when
+     the variable counts differ and keeps the table otherwise; bit m of the integer is f(m) *)
+  | "to_dyn" -> let x = p_lut a.(0) in
+     if not (wf_ x) then None else Some (expected = s_lut x)
+  | "try_from_dyn" -> let n = p_nat a.(0) and x = p_lut a.(1) in
+     if not (wf_ x) then None else
+     Some (expected = (if int_of_nat x.nv = int_of_nat n then "ok:" ^ s_lut x else "err"))
+  | "from_int" -> let n = p_nat a.(0) and v = p_n a.(1) in
+     if expected = "panic" then Some false else
+     let r = p_lut expected in
+     Some (int_of_nat r.nv = int_of_nat n && wf_ r && List.length r.tbl = 1 &&
+           List.for_all (fun m -> val0 r.tbl m = N.testbit v m) (dom n))
+  | "to_int" -> let x = p_lut a.(0) in
+     if not (wf_ x && small x) || expected = "panic" then None else
+     let v = p_n expected in
+     Some (List.for_all (fun m -> N.testbit v m = val0 x.tbl m) (dom x.nv) &&
+           n_lt v (N.pow (n_of_int 2) (N.pow (n_of_int 2) (n_of_nat_ x.nv))))
   | "mipopt_sop" | "mipopt_sopes" | "mipopt_esop" as o -> Some (mip_check o a expected)
   | _ -> None
